@@ -3205,8 +3205,20 @@ func (s *ImmuStore) readTx(txID uint64, allowPrecommitted bool, skipIntegrityChe
 	if errors.Is(err, io.EOF) {
 		return fmt.Errorf("%w: unexpected EOF while reading tx %d", ErrCorruptedTxData, txID)
 	}
+	if err != nil {
+		return err
+	}
 
-	return err
+	return checkTxID(tx.header, txID)
+}
+
+// checkTxID: the record found at the position the commit log gives for txID must be the record
+// of that transaction (the Alh check made while parsing only ties a record to itself).
+func checkTxID(hdr *TxHeader, txID uint64) error {
+	if hdr.ID != txID {
+		return fmt.Errorf("%w: tx %d found where tx %d is expected", ErrCorruptedTxData, hdr.ID, txID)
+	}
+	return nil
 }
 
 func (s *ImmuStore) ReadTxHeader(txID uint64, allowPrecommitted bool, skipIntegrityCheck bool) (*TxHeader, error) {
@@ -3218,6 +3230,11 @@ func (s *ImmuStore) ReadTxHeader(txID uint64, allowPrecommitted bool, skipIntegr
 	tdr := &txDataReader{r: r, skipIntegrityCheck: skipIntegrityCheck}
 
 	header, err := tdr.readHeader(s.maxTxEntries)
+	if err != nil {
+		return nil, err
+	}
+
+	err = checkTxID(header, txID)
 	if err != nil {
 		return nil, err
 	}
@@ -3260,6 +3277,11 @@ func (s *ImmuStore) ReadTxEntry(txID uint64, key []byte, skipIntegrityCheck bool
 	tdr := &txDataReader{r: r, skipIntegrityCheck: skipIntegrityCheck}
 
 	header, err := tdr.readHeader(s.maxTxEntries)
+	if err != nil {
+		return nil, nil, err
+	}
+
+	err = checkTxID(header, txID)
 	if err != nil {
 		return nil, nil, err
 	}
@@ -3691,6 +3713,11 @@ func (s *ImmuStore) readTxOffsetAt(txID uint64, allowPrecommitted bool, index in
 	tdr := &txDataReader{r: r}
 
 	hdr, err := tdr.readHeader(s.maxTxEntries)
+	if err != nil {
+		return nil, err
+	}
+
+	err = checkTxID(hdr, txID)
 	if err != nil {
 		return nil, err
 	}
